@@ -46,6 +46,9 @@ func main() {
 		os.Exit(2)
 	}
 	id, tier := os.Args[1], os.Args[2]
+	if (id == "C09-worker" || id == "C09-corpus") && os.Getenv("GOGC") == "" {
+		debug.SetGCPercent(800)
+	}
 	if id == "C09-worker" {
 		checks.C09Worker(os.Args[3:])
 		return
